@@ -1139,6 +1139,29 @@ pub fn gen_dec(rng: &mut Rng, thorough: bool, out: &mut String) {
         tampers(&spec, rng, false, &mut toy_inputs);
     }
     junk(rng, &mut inputs, if thorough { 2000 } else { 300 });
+    // (appended last so that everything above keeps its place in the random stream)
+    // the TEXT form of valid records handed to the binary decoder (its first byte 'e' is a complete
+    // one-byte item, which is not a record whatever follows), alone and wrapped
+    for kind in [Kind::Secp, Kind::Ed] {
+        let spec = rand_spec(rng, kind);
+        let rec = spec.encode(false);
+        if rec.len() <= 300 {
+            let text = format!("enr:{}", b64(&rec));
+            inputs.push(inp("x-text-as-bytes", "reject", vec![0x65], kind));
+            for t in [text.clone(), text[4..].to_string(), format!("{text}\n"), format!("enr:{}", hex::encode(&rec))] {
+                let mut i = inp("x-text-as-bytes", "reject", t.clone().into_bytes(), kind);
+                i.item_len = 1;
+                inputs.push(i);
+                inputs.push(inp("x-text-as-bytes-wrapped", "reject", rlp_bytes(t.as_bytes()), kind));
+            }
+        }
+    }
+    // records that use the empty key (and a one-byte key), with every tamper incl. repeated pairs
+    for kind in [Kind::Secp, Kind::Ed] {
+        let spec = Spec::new(3, vec![(vec![], vec![0x07u8]), (vec![0x01], rlp_bytes(b"abc"))], IndKey::gen(rng, kind));
+        inputs.push(inp("v-empty-key", "accept", spec.encode(false), kind));
+        tampers(&spec, rng, false, &mut inputs);
+    }
     for (n, i) in inputs.iter().enumerate() {
         emit_dec(i, &REAL_SCHEMES, n % 7 == 0 || i.tag.starts_with("o-ed-identity"), out);
     }
